@@ -13,21 +13,40 @@ B  every case of the table is replayed on the real code:
      loopback covert.  os.Stdout, the std logger and every Logger are captured per connection.
    * package lib: relay sites on the real Proxy (scripted client connection), the dial-error path, registration
      digest / expiry record with the registrant set, statistics printers, and ingestRegistration branch by branch.
+   * package lib, the registration path of CONNECTING transports (the station dials out to the client): a DTLS
+     registration through the real ingestRegistration -> handleConnectingTpReg with a scripted transport whose Connect
+     fails with every (kind, wrapping) of the table - including "flat", the shape the dtls transport really returns (the
+     network error formatted with %v into a fresh error: tainted text, nothing for a sanitiser to strip) - and the
+     handler's own GeoIP lookups failing with the real MaxMind reader.  The intended instance keeps the site silent
+     (ConnectFailLog = "none"); the instance that logs through the sanitiser must violate NoTaintAtSink in TLC.
+     The REAL dtls transport is driven too (real dial-out from :41245 to an unbound loopback port, real handshake,
+     ECONNREFUSED from the stack, duplicate secret at the real listener): what Connect returns is classified to a row of
+     the table and judged by it, and its shape is compared with the model's "flat".
    Every capture is searched for every textual form of the address (dotted, v4-mapped, hex, decimal, compressed and
    expanded v6).  With LOG_CLIENT_IP on the address must appear wherever an Error-level line is certain
    (non-vacuity of the detector); a canary line per address form must be flagged.
 """
-import json, os, collections
+import json, os, collections, copy
+from concurrent.futures import ThreadPoolExecutor
 import vlib
 
 LISTED = {"closed", "EOF", "EPIPE", "RST", "REFUSED", "ABORTED", "HOSTUNREACH"}
 TIMEOUTS = {"timeout", "ETIMEDOUT"}
+CONNECT_SITES = ("connect.Fail", "connect.geoip.CC", "connect.geoip.ASN")
 CLASS_SITES = {"noreg.Read", "notransport.Read", "loop.Read", "init.SetDeadline", "found.SetDeadline", "relay.Read", "relay.ReadFull",
                "relay.Write", "dial"}
 
 
 def kclass(k):
     return "listed" if k in LISTED else "timeout" if k in TIMEOUTS else "registrant" if k == "registrant" else "unlisted"
+
+
+def lane(ctx, name):
+    """a view of ctx with a scratch directory (and a copy of the spec) of its own, so that the independent TLC runs of this check
+    can run side by side (ctx.tlc names its files by a run count and the millisecond)"""
+    c2 = copy.copy(ctx)
+    c2.scratch = ctx.sub("lane_" + name)
+    return c2, c2.spec_copy("LogTaint")
 
 
 def gen_cases(ctx, sdir, cfg):
@@ -43,26 +62,90 @@ def gen_cases(ctx, sdir, cfg):
     return cases
 
 
+def real_connect_rows(ctx, rows, cases, res):
+    """The runs of the REAL dtls transport are not rows TLC chose: what Connect returned is classified (site connect.Fail,
+    errno found in the text / chain, shape, family) and must be a row of the TLC-enumerated table; the row then judges the run
+    like any replayed case.  The shape is what binds the model's "flat" wrapping to the code."""
+    table = {(c["site"], c["k"], c["w"], c["fam"], c["logip"]): c for c in cases}
+    summ = [x for x in rows if x.get("kind") == "summary"]
+    if not summ:
+        raise vlib.InfraError("real-dtls driver did not finish:\n%s" % res["out"][-3000:])
+    out, shapes = list(summ), collections.Counter()
+    for x in rows:
+        if x.get("kind") != "result":
+            continue
+        if x.get("skipped"):
+            ctx.notes.append("real dtls transport, %s: not run (%s)" % (x.get("fam"), x.get("why")))
+            continue
+        if x.get("panic"):
+            x["case"] = {"site": "connect.Fail", "k": "other", "w": "flat", "fam": x["fam"], "logip": False}
+            out.append(x)
+            continue
+        k = x.get("ret_kind")
+        if k == "nil":
+            ctx.notes.append("real dtls transport, %s: Connect succeeded against an unbound port?" % x["fam"])
+            continue
+        w = "ctx" if k == "ctxdeadline" else "flat" if x.get("ret_names_client") and not x.get("ret_has_operror") else \
+            "fmt" if x.get("ret_has_operror") else "bare"
+        shapes[w] += 1
+        row = table.get(("connect.Fail", k, w, x["fam"], False))
+        if row is None:
+            ctx.notes.append("real dtls transport, %s: Connect returned a shape outside the table (%s/%s): %s" % (x["fam"], k, w, x.get("ret_text")))
+            row = {"site": "connect.Fail", "k": k, "w": w, "fam": x["fam"], "logip": False, "leak": False, "classes": ["dropped"]}
+        x["case"] = dict(row)
+        x["class"] = "raw" if x.get("addr_seen") else "dropped" if not x.get("bytes") else "generic"
+        out.append(x)
+    if not shapes.get("flat"):
+        # not a verdict (nothing was written), but the model's premise for this path: say so loudly
+        raise vlib.InfraError("no run of the real dtls transport returned the address-bearing flattened error the model assumes "
+                              "(shapes seen: %s); rows: %s" % (dict(shapes), [x.get("ret_text") or x.get("why") for x in rows if x.get("kind") == "result"]))
+    ctx.log("B: real dtls transport: %d runs, shapes of Connect's error %s (model: flat = text names the client, no *net.OpError in the chain)"
+            % (sum(shapes.values()), dict(shapes)))
+    for x in out:
+        if x.get("kind") == "result" and x.get("ret_text"):
+            ctx.sample({"stage": "B", "driver": "lib-real-dtls", "case": x["case"], "connect_returned": x["ret_text"][:200],
+                        "connect_ms": x.get("connect_ms"), "addr_seen": x["addr_seen"], "bytes_captured": x.get("bytes")})
+            break
+    return out
+
+
 def run(ctx):
     thorough = ctx.tier == "thorough"
-    sdir = ctx.spec_copy("LogTaint")
+    # the six TLC runs are independent of each other: three at a time, each in a lane of its own
+    lanes = {n: lane(ctx, n) for n in ("mc", "asimpl", "connectlog", "gen", "gen_asimpl", "gen_connectlog")}
+    jobs = {
+        "mc": lambda c, d: c.tlc(d, "LogTaint.tla", "MC_LogTaint.cfg", timeout=600, workers=6),
+        "asimpl": lambda c, d: c.tlc(d, "LogTaint.tla", "MC_LogTaint_asimpl.cfg", timeout=300, workers=2, count=False),
+        "connectlog": lambda c, d: c.tlc(d, "LogTaint.tla", "MC_LogTaint_connectlog.cfg", timeout=300, workers=2, count=False),
+        "gen": lambda c, d: gen_cases(c, d, "Gen_LogTaint.cfg"),
+        "gen_asimpl": lambda c, d: gen_cases(c, d, "Gen_LogTaint_asimpl.cfg"),
+        "gen_connectlog": lambda c, d: gen_cases(c, d, "Gen_LogTaint_connectlog.cfg"),
+    }
+    with ThreadPoolExecutor(max_workers=3) as ex:
+        futs = {n: ex.submit(jobs[n], *lanes[n]) for n in ("mc", "gen", "gen_asimpl", "asimpl", "connectlog", "gen_connectlog")}
+        tl = {n: f.result() for n, f in futs.items()}
 
     # ---- A
-    r = ctx.tlc(sdir, "LogTaint.tla", "MC_LogTaint.cfg", timeout=600)
+    r = tl["mc"]
     ctx.require_design_ok(r, "LogTaint, intended instance")
     if r["distinct"] < 5000:
         raise vlib.InfraError("LogTaint state space implausibly small (%d)" % r["distinct"])
-    r2 = ctx.tlc(sdir, "LogTaint.tla", "MC_LogTaint_asimpl.cfg", timeout=300, count=False)
+    r2 = tl["asimpl"]
     if r2["inv"] != "NoTaintAtSink":
         raise vlib.InfraError("the as-implemented instance should violate NoTaintAtSink, got %s" % r2["inv"])
-    ctx.log("A: exhaustive %d distinct states, %d generated (%.1fs); as-implemented instance violates NoTaintAtSink" %
-            (r["distinct"], r["generated"], r["wall_s"]))
-    ctx.stage("A", invariants=["TypeOK", "NoTaintAtSink", "NeverRaw", "SentinelsStable"],
-              nonvacuity="instance (Sanitizer=listed, RawDeadlineLog, ingest drop log prints registrant) violates NoTaintAtSink")
+    # the connecting path: an Error-level line for a failed Connect, even through the (intended) sanitiser, must violate
+    r3 = tl["connectlog"]
+    if r3["inv"] != "NoTaintAtSink" or "connect.Fail" not in r3["out"]:
+        raise vlib.InfraError("the instance ConnectFailLog = sanitised should violate NoTaintAtSink at connect.Fail, got %s" % r3["inv"])
+    ctx.log("A: exhaustive %d distinct states, %d generated (%.1fs); as-implemented instance and the instance logging failed "
+            "connects through the sanitiser violate NoTaintAtSink" % (r["distinct"], r["generated"], r["wall_s"]))
+    ctx.stage("A", invariants=["TypeOK", "NoTaintAtSink", "NeverRaw", "SentinelsStable", "ConnectFailSilent"],
+              nonvacuity="instance (Sanitizer=listed, RawDeadlineLog, ingest drop log prints registrant) violates NoTaintAtSink; "
+                         "instance (intended sanitiser, ConnectFailLog=sanitised) violates NoTaintAtSink at connect.Fail/flat")
 
     # ---- B: the decision table
-    cases = gen_cases(ctx, sdir, "Gen_LogTaint.cfg")
-    predicted = {(c["site"], c["k"], c["w"]) for c in gen_cases(ctx, sdir, "Gen_LogTaint_asimpl.cfg") if c["leak"]}
+    cases = tl["gen"]
+    predicted = {(c["site"], c["k"], c["w"]) for c in tl["gen_asimpl"] + tl["gen_connectlog"] if c["leak"]}
     if any(c["leak"] for c in cases):
         raise vlib.InfraError("intended instance predicts a leak")
     if len(cases) < 4000:
@@ -73,7 +156,7 @@ def run(ctx):
     PRE = ("accept.File", "geoip.CC", "geoip.ASN")
     main_cases = []
     for c in cases:
-        if c["site"].startswith("ingest.") or c["site"] == "dial" or c["site"] in PRE:
+        if c["site"].startswith("ingest.") or c["site"].startswith("connect.") or c["site"] == "dial" or c["site"] in PRE:
             continue
         if c["site"] == "transport.Wrap" and not thorough and not (c["fam"] == "v4" and c["w"] in ("op", "fmt")):
             continue
@@ -111,17 +194,30 @@ def run(ctx):
     if len(reached) < 6 or not all(x.get("reached") for x in reached):
         raise vlib.InfraError("pre-classification cases did not reach their log site: %s" % [x for x in reached if not x.get("reached")][:3])
     outl = os.path.join(ctx.scratch, "taint_lib.ndjson")
-    resl = ctx.go_test("pkg/station/lib", ["common/vcommon_test.go", "pkg_station_lib/relay_verif_test.go",
-                                           "pkg_station_lib/taint_verif_test.go"], "lib",
-                       "^TestVerifTaintRelay$", env={"VERIF_IN": inl, "VERIF_OUT": outl}, timeout=1500)
+    L_FILES = ["common/vcommon_test.go", "pkg_station_lib/relay_verif_test.go", "pkg_station_lib/taint_verif_test.go",
+               "pkg_station_lib/taint_connect_verif_test.go"]
+    L_EXTRA = [("pkg/transports/connecting/dtls", ["pkg_transports_dtls/taint_bridge_verif.go"], "dtls")]
+    # one test binary, two drivers: the decision table (VERIF_OUT) and the real dtls transport (VERIF_OUT_REAL)
+    outr = os.path.join(ctx.scratch, "taint_connect_real.ndjson")
+    resl = ctx.go_test("pkg/station/lib", L_FILES, "lib", "^(TestVerifTaintRelay|TestVerifTaintConnectReal)$",
+                       env={"VERIF_IN": inl, "VERIF_OUT": outl, "VERIF_OUT_REAL": outr}, timeout=1500, extra_overlays=L_EXTRA)
+    resr = resl
     rows_l = ctx.read_results(outl)
+    # the connecting path: every scripted case must have taken the branch the case names
+    conn_rows = [x for x in rows_l if x.get("kind") == "result" and not x.get("skipped") and x["case"]["site"] in CONNECT_SITES]
+    unreached = [x for x in conn_rows if not x.get("reached") and not x.get("panic")]
+    if len(conn_rows) < 150 or unreached:
+        raise vlib.InfraError("connecting-path cases: %d run, %d did not reach their branch: %s"
+                              % (len(conn_rows), len(unreached), [x["case"] for x in unreached[:3]]))
+    # ... and the real dtls transport on the same path
+    rows_r = real_connect_rows(ctx, ctx.read_results(outr), cases, resr)
 
     classes_seen = set()
     nrun = 0
     shown = must_show = 0
     observed = set()
     class_notes = collections.Counter()
-    for drv, rows, res in (("main", rows_m, resm), ("pre", rows_p, resp), ("lib", rows_l, resl)):
+    for drv, rows, res in (("main", rows_m, resm), ("pre", rows_p, resp), ("lib", rows_l, resl), ("lib-real-dtls", rows_r, resr)):
         summ = [x for x in rows if x.get("kind") == "summary"]
         if not summ:
             raise vlib.InfraError("%s driver did not finish:\n%s" % (drv, res["out"][-3000:]))
@@ -148,6 +244,8 @@ def run(ctx):
                                 % (c["site"], x.get("line", "")[:300]))
                     else:
                         key = "leak:%s:%s:%s" % (c["site"], kclass(c["k"]), c["w"])
+                        if drv == "lib-real-dtls":
+                            key += ":real-transport"    # end to end: the error text is the real dtls transport's own
                         what = ("client address written with LOG_CLIENT_IP off [%s driver]: site %s, error %s/%s, family %s: %s"
                                 % (drv, c["site"], c["k"], c["w"], c["fam"], x.get("line", "")[:300]))
                     ctx.violation(key, what, x)
@@ -207,4 +305,7 @@ def run(ctx):
         "databases, IPv6 client)",
         "the asynchronous Close(src) may record its error after the tunnel summary was printed; such runs show nothing to scan",
         "default log level (Error); Debug/Trace/Warn output is outside the property",
+        "connecting path: the scripted transport's 'flat' shape copies the two format strings of pkg/transports/connecting/dtls; the real "
+        "transport is driven for the one failure that can be provoked offline (ECONNREFUSED from an unbound loopback port + duplicate "
+        "secret), with loopback client addresses (127.77.0.77, ::ffff:127.77.0.77, [::1]:port); DNAT is a no-op object",
     ]
